@@ -331,7 +331,7 @@ func (i *ICMPv6NeighborSolicitation) SerializeTo(b gopacket.SerializeBuffer, opt
 		return err
 	}
 
-	copy(buf, lotsOfZeros[:4])
+	copy(buf, lotsOfZeros[:20])
 	copy(buf[4:], i.TargetAddress)
 	return nil
 }
@@ -382,7 +382,7 @@ func (i *ICMPv6NeighborAdvertisement) SerializeTo(b gopacket.SerializeBuffer, op
 	}
 
 	buf[0] = byte(i.Flags)
-	copy(buf[1:], lotsOfZeros[:3])
+	copy(buf[1:], lotsOfZeros[:19])
 	copy(buf[4:], i.TargetAddress)
 	return nil
 }
@@ -448,7 +448,7 @@ func (i *ICMPv6Redirect) SerializeTo(b gopacket.SerializeBuffer, opts gopacket.S
 		return err
 	}
 
-	copy(buf, lotsOfZeros[:4])
+	copy(buf, lotsOfZeros[:36])
 	copy(buf[4:], i.TargetAddress)
 	copy(buf[20:], i.DestinationAddress)
 	return nil
